@@ -159,6 +159,14 @@ fn mark_main(env: &mut VEnv, _args: Vec<Field>) -> BuiltinFuture<'_> {
     Box::pin(async move { ExitStatus(st).into() })
 }
 
+/// `imark`: the same from inside a compound command or function body (nested family)
+fn imark_main(env: &mut VEnv, _args: Vec<Field>) -> BuiltinFuture<'_> {
+    let st = env.exit_status.0;
+    let (s, e) = snap_now(env);
+    LOG.with(|l| l.borrow_mut().push(("imark".into(), format!("{st}:{s}"), e)));
+    Box::pin(async move { ExitStatus(st).into() })
+}
+
 /// `fds` / `sfds`: records the table as the command body sees it, then writes one byte to
 /// descriptor 1 and reads up to two bytes from descriptor 0.
 fn fds_main(env: &mut VEnv, _args: Vec<Field>) -> BuiltinFuture<'_> {
@@ -283,6 +291,7 @@ fn c09_builtins() -> Vec<(&'static str, Builtin<VSys>)> {
     vec![
         ("rg", Builtin::new(Type::Mandatory, rg_main)),
         ("mark", Builtin::new(Type::Mandatory, mark_main)),
+        ("imark", Builtin::new(Type::Mandatory, imark_main)),
         ("fds", Builtin::new(Type::Mandatory, fds_main)),
         ("sfds", Builtin::new(Type::Special, fds_main)),
         // the same probe under every other built-in type `execute_builtin` distinguishes
@@ -421,6 +430,8 @@ fn parse_redirs(text: &str) -> Option<Vec<RedirSpec>> {
             "dupin" | "dupout" => ["-", "z", "E", "big", "neg"].contains(&w[2]) || w[2].parse::<u32>().is_ok(),
             "here" => true,
             "pipe" | "hstr" => true,
+            // `0 nest -`: separates the outer list from the inner list of a nested command
+            "nest" => true,
             _ => false,
         };
         if !ok_operand {
@@ -448,7 +459,7 @@ fn parse_case(case: &str) -> Option<Case> {
         for p in h[2].split(',') {
             let (n, m) = p.split_at(p.len().checked_sub(1)?);
             let m = m.chars().next()?;
-            if !"rwbcx".contains(m) {
+            if !"rwbcxRW".contains(m) {
                 return None;
             }
             pre.push((n.parse().ok()?, m));
@@ -456,10 +467,17 @@ fn parse_case(case: &str) -> Option<Case> {
     }
     let mut commands = vec![];
     for pair in parts[1..].chunks(2) {
-        if !KINDS.contains(&pair[0]) {
+        let redirs = parse_redirs(pair[1])?;
+        let markers = redirs.iter().filter(|r| r.1 == "nest").count();
+        if NEST_KINDS.contains(&pair[0]) {
+            // non-interactive shells only (see Main.lean)
+            if markers != 1 || interactive {
+                return None;
+            }
+        } else if !KINDS.contains(&pair[0]) || markers != 0 {
             return None;
         }
-        commands.push((pair[0].to_string(), parse_redirs(pair[1])?));
+        commands.push((pair[0].to_string(), redirs));
     }
     Some(Case { noclobber, limit, pre, interactive, commands })
 }
@@ -485,7 +503,8 @@ fn operand_text(o: &str) -> String {
     }
 }
 
-fn command_text(kind: &str, redirs: &[RedirSpec], salt: u64) -> String {
+/// shell text of a list: the words and the here-document bodies that follow the line
+fn redir_words(redirs: &[RedirSpec], salt: u64) -> (Vec<String>, String) {
     let mut words = vec![];
     let mut bodies = String::new();
     for (i, (fd, op, operand)) in redirs.iter().enumerate() {
@@ -513,6 +532,35 @@ fn command_text(kind: &str, redirs: &[RedirSpec], salt: u64) -> String {
             words.push(format!("{n}{sym}{}", operand_text(operand)));
         }
     }
+    (words, bodies)
+}
+
+/// `{ imark; CMD inner…; imark; } outer…` — or the same as a function body, the outer list on the call
+fn nested_text(kind: &str, redirs: &[RedirSpec], salt: u64) -> String {
+    let at = redirs.iter().position(|r| r.1 == "nest").unwrap_or(redirs.len());
+    let (ow, ob) = redir_words(&redirs[..at], salt);
+    let (iw, ib) = redir_words(&redirs[(at + 1).min(redirs.len())..], salt.rotate_left(17));
+    let cmd = match kind {
+        "nestsp" => "sfds",
+        "nestexec" => "exec",
+        "nestnf" => "nosuchcmd",
+        "nestcolon" => ":",
+        "nestexecnf" => "exec nosuchcmd",
+        _ => "fds",
+    };
+    if kind == "nestfn" {
+        format!("h() {{ imark; {cmd} {}; imark; }}\n{ib}h {}\n{ob}mark\n", iw.join(" "), ow.join(" "))
+    } else {
+        // here-document bodies follow the line in the order of the operators on it: inner first
+        format!("{{ imark; {cmd} {}; imark; }} {}\n{ib}{ob}mark\n", iw.join(" "), ow.join(" "))
+    }
+}
+
+fn command_text(kind: &str, redirs: &[RedirSpec], salt: u64) -> String {
+    if NEST_KINDS.contains(&kind) {
+        return nested_text(kind, redirs, salt);
+    }
+    let (words, bodies) = redir_words(redirs, salt);
     if kind == "guard" || kind == "guardkeep" {
         // the list goes to the built-in's own guard, not to the command
         let idx = GUARD_LISTS.with(|g| {
@@ -600,9 +648,10 @@ fn setup_system(env: &mut VEnv, state: &Rc<RefCell<SystemState>>, pre: &[(i32, c
     env.builtins.extend(c09_builtins());
     let path = CString::new("/tmp/p").unwrap();
     for (fd, m) in pre.iter().filter(|p| p.1 != 'x') {
+        // `R` / `W`: read-only / write-only AND close-on-exec (tells the order of `copy_fd`'s checks)
         let acc = match m {
-            'r' => OfdAccess::ReadOnly,
-            'w' => OfdAccess::WriteOnly,
+            'r' | 'R' => OfdAccess::ReadOnly,
+            'w' | 'W' => OfdAccess::WriteOnly,
             _ => OfdAccess::ReadWrite,
         };
         let got = env
@@ -615,7 +664,7 @@ fn setup_system(env: &mut VEnv, state: &Rc<RefCell<SystemState>>, pre: &[(i32, c
             env.system.dup2(got, Fd(*fd)).expect("dup2");
             env.system.close(got).expect("close");
         }
-        if *m == 'c' {
+        if matches!(*m, 'c' | 'R' | 'W') {
             env.system.fcntl_setfd(Fd(*fd), FdFlag::CloseOnExec.into()).expect("setfd");
         }
     }
@@ -700,32 +749,52 @@ fn run_case(case: &str) -> (String, String) {
         // tables after each `perform_redir` of the `rg` built-in, and its summary
         let mut gsteps: Vec<&(String, String, Vec<Entry>)> = vec![];
         let mut gsummary: Option<&(String, String, Vec<Entry>)> = None;
-        while pos < log.len() && (log[pos].0 == "fds" || log[pos].0 == "gstep" || log[pos].0 == "rg") {
+        // nested family: the tables at the two `imark`s inside the outer command
+        let mut imarks: Vec<&(String, String, Vec<Entry>)> = vec![];
+        while pos < log.len() && ["fds", "gstep", "rg", "imark"].contains(&log[pos].0.as_str()) {
             match log[pos].0.as_str() {
                 "fds" => during.push(&log[pos]),
                 "gstep" => gsteps.push(&log[pos]),
+                "imark" => imarks.push(&log[pos]),
                 _ => gsummary = Some(&log[pos]),
             }
             pos += 1;
         }
+        let nested = NEST_KINDS.contains(&kind.as_str());
         let after = if pos < log.len() { Some(&log[pos]) } else { None };
         pos += 1;
-        let d_text = gsummary
+        let mut d_text = gsummary
             .map(|g| g.1.clone())
             .or_else(|| during.first().map(|d| d.1.clone()))
             .unwrap_or_else(|| "-".into());
+        if nested && !imarks.is_empty() {
+            // table at the first `imark` (outer list applied) ~ what the inner body saw ~ `$?` and table
+            // at the second `imark` (inner list undone, or persisted for `exec`)
+            let first = imarks[0].1.split_once(':').map(|x| x.1).unwrap_or("");
+            let second = imarks.get(1).map(|m| m.1.as_str()).unwrap_or("-");
+            d_text = format!("N:{first}~{d_text}~{second}");
+        }
         let a_text = after.map(|a| a.1.clone()).unwrap_or_else(|| "-".into());
         parts.push(format!("D={d_text} A={a_text}"));
 
         // ---- the property statement on the real run of this command
-        let targets: Vec<i32> = redirs.iter().map(|r| r.0).collect();
+        let targets: Vec<i32> = redirs.iter().filter(|r| r.1 != "nest").map(|r| r.0).collect();
         // `$?` after the command, or the status the shell ended with at this command
         let status: i32 = after
             .and_then(|a| a.1.split_once(':').and_then(|x| x.0.parse().ok()))
             .unwrap_or(outcome.exit_status);
         // redirections on `exec` persist when they all succeeded (a redirection error gives 2),
         // whether or not a utility named as operand could be invoked (then 127 / 126)
-        let persists = EXEC_FAMILY.contains(&kind.as_str()) && status != 2;
+        // (nested family: an inner `exec` persists past the inner command; what it did to a target of the
+        // outer list goes away with the outer list)
+        let persists =
+            (EXEC_FAMILY.contains(&kind.as_str()) || kind == "nestexec" || kind == "nestexecnf") && status != 2;
+        if nested && imarks.len() == 2 && !persists && !same_table(&imarks[0].2, &imarks[1].2) {
+            verdict = "FAIL:inner-table-not-restored".into();
+        }
+        if imarks.len() > 2 {
+            verdict = "FAIL:body-ran-twice".into();
+        }
         if during.len() > 1 {
             verdict = "FAIL:body-ran-twice".into();
         }
@@ -741,7 +810,7 @@ fn run_case(case: &str) -> (String, String) {
             }
         }
         // "redirections on `exec` persist": what the last redirection asked for is there afterwards
-        if persists {
+        if persists && !nested {
             if let Some((fd, op, operand)) = redirs.last() {
                 let entry = left.iter().find(|e| e.0 == *fd);
                 let want_file = matches!(op.as_str(), "in" | "out" | "clob" | "app" | "rw")
@@ -763,6 +832,7 @@ fn run_case(case: &str) -> (String, String) {
         let mut seen: Vec<(&str, &Vec<Entry>)> = vec![("left", left)];
         seen.extend(during.first().map(|d| ("visible", &d.2)));
         seen.extend(gsteps.iter().map(|g| ("after-a-step", &g.2)));
+        seen.extend(imarks.iter().map(|g| ("inside", &g.2)));
         for (what, table) in seen {
             for e in table {
                 if e.0 < 10 && e.2 && !base.contains(e) {
@@ -772,7 +842,7 @@ fn run_case(case: &str) -> (String, String) {
         }
         // what the body of the command sees, and what the process table is after every step of the
         // guard driven directly: anything new that is not a target is the guard's, >= 10 and CLOEXEC
-        for d in during.first().into_iter().chain(gsteps.iter()) {
+        for d in during.first().into_iter().chain(gsteps.iter()).chain(imarks.iter()) {
             for e in &d.2 {
                 let unchanged = base.contains(e);
                 if !unchanged && !targets.contains(&e.0) && !(e.0 >= 10 && e.2) {
@@ -819,6 +889,10 @@ const KINDS: [&str; 31] = [
     "execnf", "execne", "cmdexecnf", "funcret", "assign", "ext", "extp", "execbad", "forloop", "whileloop",
     "untilloop", "ifcmd", "casecmd",
 ];
+/// nested family: `{ imark; CMD inner…; imark; } outer…` with CMD = `fds` (`nest`; `nestfn`: the same as the
+/// body of a function, the outer list on the call), `sfds`, `exec`, `nosuchcmd`, `:`, `exec nosuchcmd`; the
+/// list is `outer…; 0 nest -; inner…`
+const NEST_KINDS: [&str; 7] = ["nest", "nestfn", "nestsp", "nestexec", "nestnf", "nestcolon", "nestexecnf"];
 /// kinds whose built-in asks to retain the redirections (`should_retain_redirs`)
 const EXEC_FAMILY: [&str; 6] = ["exec", "cmdexec", "execnf", "execne", "cmdexecnf", "guardkeep"];
 const FILE_OPS: [&str; 5] = ["in", "out", "clob", "app", "rw"];
@@ -863,7 +937,7 @@ fn gen_pre(r: &mut Rng) -> (String, i32) {
     }
     for fd in 10..13 {
         if r.chance(1, 6) {
-            v.push(format!("{fd}{}", r.pick(&["c", "c", "b"])));
+            v.push(format!("{fd}{}", r.pick(&["c", "c", "b", "R", "W"])));
             max_open = fd;
         }
     }
@@ -888,7 +962,18 @@ fn gen_case(r: &mut Rng) -> String {
     // one command in two thirds of the cases, otherwise a script of 2-3 commands (the first often `exec`)
     let ncmd = if r.chance(2, 3) { 1 } else { 2 + r.below(2) };
     let mut cmds = vec![];
+    let mut has_nested = false;
     for i in 0..ncmd {
+        // one command in eight is a nested one (outer list; marker; inner list)
+        if r.chance(1, 8) {
+            has_nested = true;
+            let kind = *r.pick(&NEST_KINDS);
+            let mut rs: Vec<String> = (0..r.below(3)).map(|_| gen_redir(r)).collect();
+            rs.push("0 nest -".into());
+            rs.extend((0..r.below(3)).map(|_| gen_redir(r)));
+            cmds.push(format!("{kind} | {}", rs.join("; ")));
+            continue;
+        }
         let kind = if ncmd > 1 && i == 0 && r.chance(1, 2) { *r.pick(&["exec", "cmdexec"]) } else { *r.pick(&KINDS) };
         let n = match r.below(10) {
             0 => 0,
@@ -900,7 +985,7 @@ fn gen_case(r: &mut Rng) -> String {
         let rs: Vec<String> = (0..n).map(|_| gen_redir(r)).collect();
         cmds.push(format!("{kind} | {}", rs.join("; ")));
     }
-    let inter = if r.chance(1, 3) { " i" } else { "" };
+    let inter = if r.chance(1, 3) && !has_nested { " i" } else { "" };
     format!("{nc} {lim} {pre}{inter} | {}", cmds.join(" | "))
 }
 
@@ -1166,6 +1251,65 @@ fn guard_cases(thorough: bool) -> Vec<String> {
     v
 }
 
+/// the order of `copy_fd`'s checks (access mode first, then CLOEXEC): sources that are close-on-exec AND
+/// lack the access the operator needs (`R` read-only, `W` write-only), at and above 10 and below it
+fn copy_order_cases(thorough: bool) -> Vec<String> {
+    let mut v = vec![];
+    for pre in ["11R,12W", "5R,6W", "10W,11c,12R", "4W,10R"] {
+        let fds: Vec<&str> = pre.split(',').map(|p| &p[..p.len() - 1]).collect();
+        for (i, kind) in KINDS.iter().enumerate() {
+            for (j, op) in ["dupin", "dupout"].iter().enumerate() {
+                for (k, src) in fds.iter().enumerate() {
+                    for target in [0, 1, 3] {
+                        if !thorough && (i + j + k + target) % 3 != 0 && !kind.starts_with("guard") {
+                            continue;
+                        }
+                        v.push(format!("0 - {pre} | {kind} | {target} {op} {src}"));
+                        v.push(format!("0 - {pre} | {kind} | 1 out a; {target} {op} {src} | regular | "));
+                    }
+                }
+            }
+        }
+    }
+    v
+}
+
+/// two guards alive at once: an outer list on a compound command / function call, an inner list on a command
+/// in its body; failures at every position of either list, shared targets, saved copies of the outer list
+/// in the way of the inner one, lowered limits, an inner `exec`
+fn nested_cases(thorough: bool) -> Vec<String> {
+    let outers = [
+        "", "1 out a", "1 out m; 2 dupout 1", "0 here -", "3 out b; 1 dupout 3", "1 dupout -", "0 in m", "1 out a; 0 in e",
+        "10 out m", "5 rw n; 0 dupin 5",
+    ];
+    let inners = [
+        "", "1 out b", "1 out a", "0 in a; 1 dupout 2", "2 out m; 1 dupout 2", "0 here -", "1 dupout 10", "10 out m",
+        "3 dupout 1; 1 dupout -", "0 in m", "1 out b; 0 in e", "4 out E", "1 dupout -", "12 dupout 1",
+    ];
+    let mut v = vec![];
+    for (k, kind) in NEST_KINDS.iter().enumerate() {
+        for (i, o) in outers.iter().enumerate() {
+            for (j, inn) in inners.iter().enumerate() {
+                for (p, pre) in ["-", "3b,11c", "10b", "0x"].iter().enumerate() {
+                    if !thorough && (i + j + k + p) % 4 != 0 {
+                        continue;
+                    }
+                    let sep = if o.is_empty() { "" } else { "; " };
+                    let list = format!("{o}{sep}0 nest -; {inn}");
+                    v.push(format!("0 - {pre} | {kind} | {list} | regular | 1 out m"));
+                    let lo = if *pre == "-" || *pre == "0x" { 3 } else { 12 };
+                    for lim in lo..=14 {
+                        if (i + j + lim) % (if thorough { 2 } else { 7 }) == 0 {
+                            v.push(format!("{} {lim} {pre} | {kind} | {list} | special | ", (i + j) % 2));
+                        }
+                    }
+                }
+            }
+        }
+    }
+    v
+}
+
 fn main() {
     quiet_panics();
     let o = Opts::from_args();
@@ -1185,6 +1329,8 @@ fn main() {
     all.extend(exec_cases(o.thorough()));
     all.extend(expansion_cases(o.thorough()));
     all.extend(guard_cases(o.thorough()));
+    all.extend(copy_order_cases(o.thorough()));
+    all.extend(nested_cases(o.thorough()));
     for c in &all {
         if index % o.shard.1 == o.shard.0 {
             let (obs, oracle) = run_guarded(c);
